@@ -521,6 +521,106 @@ func (c *Checker) runS35Setters(thorough bool) {
 	c.extra["setter_analyses"] = total
 }
 
+// runToggle: a flag set to the opposite of its decoded value and back again.
+// The next encoding must be the canonical section of the signal as decoded:
+// a flag setter that also disturbs other state (a presence flag cleared on the
+// way, a stored time dropped) shows only in such a sequence, because every
+// single edit still encodes correctly (seed C09h).
+func (c *Checker) runToggle(e s35Edit, sh s35Shape) (string, bool) {
+	var calls []crcCall
+	n, sig, x, why := c.decodeForEncode(sh, &calls)
+	if why != "" {
+		return why, true
+	}
+	tgt, why := n.s35Target(sig, sh, e.target)
+	if why != "" || tgt == nil {
+		return "target " + e.target + ": " + why, true
+	}
+	cur, ok := n.call(tgt, e.getter).(*BV)
+	if !ok || cur.W != 1 {
+		return "", false
+	}
+	v0, isC := cur.ConstInt()
+	if !isC {
+		return "", false // the flag is a symbolic bit of the section in this shape
+	}
+	n.call(tgt, e.method, boolConst(v0 == 0))
+	n.call(tgt, e.method, boolConst(v0 != 0))
+	if n.in.Fail != "" {
+		return "analysis of " + e.method + ": " + n.in.Fail, true
+	}
+	out := n.call(sig, "UpdateData")
+	if n.in.Fail != "" {
+		return "analysis of UpdateData: " + n.in.Fail, true
+	}
+	got, why := n.readBytes(out)
+	if why != "" {
+		return why, true
+	}
+	want := sh.encode("data", x.vals)
+	mixed, seenSeg := false, false
+	for _, d := range sh.descs {
+		if !d.foreign {
+			seenSeg = true
+		} else if seenSeg {
+			mixed = true
+		}
+	}
+	return compareEncoding(got, want, calls, timedCommand(sh), mixed), true
+}
+
+func (c *Checker) runS35Toggles() {
+	shapes := s35Shapes(false)
+	type key struct{ target, method string }
+	agg := map[key]*stepAgg{}
+	var order []key
+	total := 0
+	for _, e := range s35Edits() {
+		if e.what != "(true)" || e.getter == "" {
+			continue // one run per boolean setter (boolEdit yields a true and a false entry)
+		}
+		k := key{e.target, e.method}
+		if strings.HasPrefix(e.target, "d") {
+			k.target = "descriptor" + strings.TrimLeft(e.target, "d0123456789")
+		}
+		a := agg[k]
+		if a == nil {
+			a = &stepAgg{}
+			agg[k] = a
+			order = append(order, k)
+		}
+		used := 0
+		for _, sh := range shapes {
+			if sh.pointer != 0 || !e.applies(sh) || used >= 6 {
+				continue
+			}
+			d, ran := c.runToggle(e, sh)
+			if !ran {
+				continue
+			}
+			used++
+			a.n++
+			total++
+			if d != "" {
+				a.bad++
+				if a.first == "" {
+					a.first = sh.name + ": " + d
+				}
+			}
+		}
+	}
+	names := map[string]string{"sig": "(*scte35)", "cmd": "splice command", "comp0": "(*component)", "descriptor": "(*segmentationDescriptor)", "descriptor.c0": "(*componentOffset)", "descriptor.mid0": "(*upidSt)"}
+	for _, k := range order {
+		a := agg[k]
+		if a.n == 0 {
+			continue
+		}
+		c.check("C09.toggle", "scte35:"+names[k.target]+"."+k.method, "set to the opposite of the decoded value and back: the next encoding is the canonical section of the signal as decoded",
+			a.bad == 0, fmt.Sprintf("%d of %d base shapes fail; first: %s", a.bad, a.n, a.first))
+	}
+	c.extra["toggle_analyses"] = total
+}
+
 // ------------------------------------------------------------ creation API
 
 // callFn calls a package-level function inside the same state.
